@@ -218,6 +218,24 @@ pub fn candidates(seed: u64) -> Vec<Value> {
             out.push(json!({"case": "compile_sdd", "cnf": cnf4, "vtree": vt4}));
         }
     }
+    // five variables: left-linear, right-linear, balanced and two mixed vtrees, random CNFs and expressions
+    let vt5 = [json!([[[[0, 1], 2], 3], 4]), json!([0, [1, [2, [3, 4]]]]), json!([[0, 1], [[2, 3], 4]]), json!([[3, [0, 4]], [2, 1]]), json!([[4, 2], [[1, 0], 3]])];
+    fn gen5(depth: u64, nx: &mut dyn FnMut(u64) -> u64) -> Value {
+        if depth == 0 || nx(4) == 0 { return json!(["lit", nx(5), nx(2) == 0]); }
+        match nx(6) {
+            0 => json!(["not", gen5(depth - 1, nx)]),
+            1 => json!(["and", gen5(depth - 1, nx), gen5(depth - 1, nx)]),
+            2 => json!(["or", gen5(depth - 1, nx), gen5(depth - 1, nx)]),
+            3 => json!(["iff", gen5(depth - 1, nx), gen5(depth - 1, nx)]),
+            4 => json!(["xor", gen5(depth - 1, nx), gen5(depth - 1, nx)]),
+            _ => json!(["ite", gen5(depth - 1, nx), gen5(depth - 1, nx), gen5(depth - 1, nx)]),
+        }
+    }
+    for _ in 0..200 {
+        let vt = vt5[nx(5) as usize].clone();
+        let cnf5: Vec<Vec<i64>> = (0..2 + nx(6)).map(|_| (0..1 + nx(3)).map(|_| { let v = 1 + nx(5) as i64; if nx(2) == 0 { v } else { -v } }).collect()).collect();
+        out.push(json!({"case": "compile_sdd", "cnf": cnf5, "expr": gen5(3, &mut nx), "vtree": vt}));
+    }
     for _ in 0..600 {
         let o = orders[nx(6) as usize];
         out.push(json!({"case": "compile_expr", "expr": gen(4, &mut nx), "order": o}));
